@@ -38,6 +38,11 @@ def cases(tier):
                 cs.append(dict(kind='split', hs=[1, 2], r=r, n=n, transposed=0))
                 if tier == 'thorough':
                     cs.append(dict(kind='split', hs=[2, 1], r=r, n=n, transposed=1))
+    # tiny regions (height 2^-10, area <= 8e-6: below the class-wide AREA tolerance of 1e-5 but 10^7 times the distance tolerance):
+    # the aspect-ratio clause holds for them as for any other region
+    for r in RS:
+        for n in (1, 2):
+            cs.append(dict(kind='split', hs=[0.0009765625], r=r, n=n, transposed=(n + len(cs)) % 2))
     for rows in (1, 2, 3):
         for cols in (1, 2, 3):
             if rows + cols > 1:
